@@ -236,7 +236,8 @@ impl Runner for R {
                 let rid: u32 = r.parse().unwrap();
                 let class = self.cfg_class();
                 let w = self.w.as_mut().unwrap();
-                let had_closed_pending = w.subs.get(1).map(|s| s.verif_state() == 0 && s.verif_notifications_len() > 0).unwrap_or(false);
+                // (exactly one queued notification: the status change is then the next one to go out)
+                let had_closed_pending = w.subs.get(1).map(|s| s.verif_state() == 0 && s.verif_notifications_len() == 1).unwrap_or(false);
                 let now = w.time_for_tick(false, INTERVAL_MS);
                 let res = w.publish(fx, &now, rid);
                 let resps = w.take_responses();
